@@ -86,6 +86,12 @@ def manager_histories(g, idx, res, with_child):
     if method == "ROWWISE" and not res["allow_rowwise"]:
         method = "BIRECTANGLE"
     cfg = small_cfg(g, method, idx)
+    if idx % 8 in (5, 6):
+        # a cap that leaves exactly one admissible candidate (the single borehole) and loads one borehole can carry: the search then
+        # evaluates one field only, at both ends of the height window
+        cfg["design"]["max_boreholes"] = 2
+        cfg["loads_desc"]["scale"] = PC.scale_loads_for(cfg, "small", g) * float(g.uniform(0.15, 0.6))
+        res["single_candidate_scenarios"] = res.get("single_candidate_scenarios", 0) + 1
     loads = GL.make_loads(cfg["loads_desc"])
     case = {"scenario": cfg}
     out = []
@@ -295,6 +301,7 @@ def check(tier, seed):
             rep.inconclusive.append("shard failed: " + r["_harness_error"][:300])
             continue
         rep.evaluations += r["comparisons"]
+        rep.count("single_candidate_scenarios", r.get("single_candidate_scenarios", 0))
         rep.count("designs_run", r["designs"])
         rep.count("object_histories", r["object_histories"])
         for k, v in r["histories"].items():
